@@ -372,6 +372,7 @@ def zrangeIdx (fixed rev : Bool) (len : Nat) (start stop : Int) : Option (Nat ×
     forward — `stop` lies before the first element and `start` normalises to 0 (`ZRANGE k 0 -100`);
     reverse — the same, or `start` lies past the last element while `stop` reaches it (`ZREVRANGE k 5 10`). -/
 def zrangeDev (rev : Bool) (len : Nat) (start stop : Int) : Bool :=
+  if len = 0 then false else
   let startIdx := normIdx len start
   let stopIdx := normIdx len stop
   let stopOut := decide (stop < 0 ∧ (len : Int) + stop < 0)
